@@ -208,6 +208,8 @@ func runC10(r *Run) {
 	}
 	savers := w.CallersOf(prod, "tmstore.FinalizationStore.SaveFinalization")
 	r.Check(len(savers) == 2, "C10.4", "callers(SaveFinalization)", "", fmt.Sprintf("%v", uniqueFns(savers)))
+	r.Rule("C10.8", "the commit proof saved with a committed header is a private copy: the kernel recycles and clears its view maps in place, so a proof handed to the store by reference is emptied (or refilled with another height's signatures) by a later shift and the stored certificate is lost for the next restart")
+	storedCommitProofIsPrivate(r, "C10.8")
 	r.Rule("C10.7", "restart resumes with the validator set the chain recorded: the engine's mirror configuration takes it from the InitChain result or the stored pre-initial finalization, never from the external genesis document")
 	engineInitialValidatorSet(r, "C10.7")
 	r.Expect("C10.4", 3, "init-chain guards")
@@ -549,6 +551,8 @@ func runC11(r *Run) {
 			r.Check(okW[FuncName(fw.Fn)], "C11.4", "write(lastSentVersion)@"+FuncName(fw.Fn), w.InstrPos(fw.Instr), "last sent version bookkeeping")
 		}
 	}
+	r.Rule("C11.7", "the force-send slot (offered without a height/round test, its version becoming lastSentVersion) is either never filled in production or cleared on every round entrance, so a view of the round just left cannot be delivered into the next round and suppress its updates")
+	forcedViewDiscipline(r, "C11.7")
 	r.Expect("C11.4", 8, "send discipline")
 
 	// ---- C11.5
